@@ -95,7 +95,8 @@ ACTIONS = {
     'k1': ['I send event go', 'I send event back', 'I send event end', 'I wait 3 seconds', 'I wait 1 second',
            'I do nothing', 'I repeat "I send event go" 2 times', 'I send event go with v=7'],
     'k2': ['I send event go', 'I send event set with amount=2', 'I send event set with amount=5',
-           'I wait 2 seconds', 'I do nothing', 'I repeat "I send event go" 2 times'],
+           'I wait 2 seconds', 'I do nothing', 'I repeat "I send event go" 2 times',
+           'I send event set\n      | parameter | value |\n      | amount    | 3     |\n      | extra     | None  |'],
 }
 # library scenarios that 'I reproduce "<name>"' replays (their own then-less run is part of the feature)
 LIBRARY = {
@@ -113,6 +114,8 @@ THENS = {
            'expressions': ['x == 1', 'x > 1', 'x == 0', "active('b')", 'not active("a")']},
     'k2': {'states': ['top', 'l1', 'l2', 'r1', 'r2'], 'events': ['ping', 'nope'],
            'event_params': [('ping', 'level', '1'), ('ping', 'level', '2'), ('ping', 'level', '3')],
+           'event_tables': [('ping', (('level', '2'),)), ('ping', (('level', '2'), ('zz', '3'))),
+                            ('ping', (('level', '1'), ('level', '2')))],
            'variables': [('n', '0'), ('n', '2'), ('n', '7'), ('last', '5'), ('last', 'None')],
            'expressions': ['n == 2', 'n > 2', 'last is None', "active('r2')"]},
 }
@@ -136,6 +139,8 @@ def then_steps(k):
         out.append(('event', e, 'is not fired'))
     for e, p, v in t['event_params']:
         out.append(('eventp', e, p, v))
+    for e, rows in t.get('event_tables', []):
+        out.append(('eventt', e, rows))
     out.append(('noevent',))
     for var, val in t['variables']:
         out.append(('var', var, 'equals', val))
@@ -155,6 +160,9 @@ def then_text(t):
         return 'event %s %s' % (t[1], t[2])
     if t[0] == 'eventp':
         return 'event %s is fired with %s=%s' % (t[1], t[2], t[3])
+    if t[0] == 'eventt':
+        return 'event %s is fired\n      | parameter | value |\n%s' % (
+            t[1], '\n'.join('      | %s | %s |' % r for r in t[2]))
     if t[0] == 'noevent':
         return 'no event is fired'
     if t[0] == 'var':
@@ -187,7 +195,14 @@ class Oracle:
                 self.act(keyword, inner)
             self._after(keyword)
             return
-        if text.startswith('I send event '):
+        if text.startswith('I send event ') and '\n' in text:
+            head, *rows = text.split('\n')
+            params = {}
+            for r in rows[1:]:
+                cells = [c.strip() for c in r.strip().strip('|').split('|')]
+                params[cells[0]] = eval(cells[1], {}, {})
+            self.it.queue(Event(head[len('I send event '):].strip(), **params))
+        elif text.startswith('I send event '):
             rest = text[len('I send event '):]
             if ' with ' in rest:
                 name, pv = rest.split(' with ')
@@ -225,6 +240,12 @@ class Oracle:
         if t[0] == 'eventp':
             val = eval(t[3], {}, {})
             return any(e.name == t[1] and t[2] in e.data and e.data[t[2]] == val for e in sent)
+        if t[0] == 'eventt':
+            want = {}
+            for p, v in t[2]:
+                want[p] = eval(v, {}, {})        # later rows of the same parameter override earlier ones
+            return any(e.name == t[1] and all(k in e.data and e.data[k] == v for k, v in want.items())
+                       for e in sent)
         if t[0] == 'noevent':
             return not sent
         if t[0] == 'var':
@@ -290,18 +311,18 @@ def scenarios(k, tier):
     for a in firsts:
         for b in acts:
             for t in thens:
-                if t[0] in ('state', 'event', 'eventp', 'noevent'):
+                if t[0] in ('state', 'event', 'eventp', 'eventt', 'noevent'):
                     out.append([('when', a), ('then', 'TRUE'), ('when', b), ('then', t)])
     # a given step after the when-block: its macro steps must not count for entered/exited/fired
     for a in firsts:
         for g in acts:
             for t in thens:
-                if t[0] in ('state', 'event', 'eventp', 'noevent'):
+                if t[0] in ('state', 'event', 'eventp', 'eventt', 'noevent'):
                     out.append([('when', a), ('given', g), ('then', t)])
     # reproduce: the given/when steps of a library scenario replayed as given, resp. as when
     for p in LIBRARY[k]:
         for t in thens:
-            if t[0] in ('state', 'event', 'eventp', 'noevent', 'var', 'final'):
+            if t[0] in ('state', 'event', 'eventp', 'eventt', 'noevent', 'var', 'final'):
                 out.append([('when', 'I reproduce "%s"' % p), ('then', t)])
                 for a in acts[:3]:
                     out.append([('given', 'I reproduce "%s"' % p), ('when', a), ('then', t)])
